@@ -72,6 +72,13 @@ DecodeAll(bytes) ==
   LET L == SelectSeq(Idx(bytes), LAMBDA i : ~IsCont(bytes[i])) IN
   Mat([k \in 1..Len(L) |-> CodePoint(SubSeq(bytes, L[k], IF k < Len(L) THEN L[k + 1] - 1 ELSE Len(bytes)))])
 
+\* The decode step is parameterised by the charset the response declares (Content-Type):
+\*   "utf8"   (no charset, charset=utf-8, or a charset the client does not know): the functions above;
+\*   "latin1" (charset=ISO-8859-1 / latin-1): every byte is one code point, nothing is ever carried.
+DecodeChunkX(charset, carry, chunk) ==
+  IF charset = "latin1" THEN [chars |-> carry \o chunk, carry |-> <<>>] ELSE DecodeChunk(carry, chunk)
+DecodeAllX(charset, bytes) == IF charset = "latin1" THEN bytes ELSE DecodeAll(bytes)
+
 \* the encoder (used by the stream family to produce byte strings from text)
 EncodeCp(c) ==
   IF c < 128 THEN <<c>>
@@ -205,14 +212,17 @@ Blocks(ls) ==
       G == [k \in 1..(Len(B) - 1) |-> SubSeq(ls, B[k] + 1, B[k + 1] - 1)]
   IN SelectSeq(G, LAMBDA g : g # <<>>)
 
-LinesOf(bytes) == SplitLines(DecodeAll(bytes))
-BlocksOf(bytes) == Blocks(LinesOf(bytes))
+LinesOfX(charset, bytes) == SplitLines(DecodeAllX(charset, bytes))
+BlocksOfX(charset, bytes) == Blocks(LinesOfX(charset, bytes))
+LinesOf(bytes) == LinesOfX("utf8", bytes)
+BlocksOf(bytes) == BlocksOfX("utf8", bytes)
 
 \* comment-only blocks: a block without any field line.  `deliver` says whether such a block yields an
 \* (empty) event; the property fixes the meaning only for blocks with at least one field line.
-EventsX(bytes, deliver) ==
-  LET bs == SelectSeq(BlocksOf(bytes), LAMBDA b : deliver \/ FieldsOf(b) # <<>>) IN
+EventsXC(charset, bytes, deliver) ==
+  LET bs == SelectSeq(BlocksOfX(charset, bytes), LAMBDA b : deliver \/ FieldsOf(b) # <<>>) IN
   Mat([k \in 1..Len(bs) |-> EventOf(bs[k])])
+EventsX(bytes, deliver) == EventsXC("utf8", bytes, deliver)
 Events(bytes) == EventsX(bytes, TRUE)
 
 HasCommentOnlyBlock(bytes) == \E k \in 1..Len(BlocksOf(bytes)) : FieldsOf(BlocksOf(bytes)[k]) = <<>>
@@ -221,12 +231,15 @@ HasCommentOnlyBlock(bytes) == \E k \in 1..Len(BlocksOf(bytes)) : FieldsOf(Blocks
 DataTexts(evs) == LET d == SelectSeq(evs, LAMBDA e : e.data # <<>>) IN Mat([k \in 1..Len(d) |-> d[k].data])
 
 \* NDJSON: every non-blank line, stripped, is one record (its text)
-Records(bytes) ==
-  LET ls == LinesOf(bytes)
+RecordsC(charset, bytes) ==
+  LET ls == LinesOfX(charset, bytes)
       st == Mat([i \in 1..Len(ls) |-> Strip(ls[i])])
   IN SelectSeq(st, LAMBDA t : t # <<>>)
 
-Expected(mode, bytes) == IF mode = "sse" THEN Events(bytes) ELSE Records(bytes)
+Records(bytes) == RecordsC("utf8", bytes)
+
+ExpectedC(charset, mode, bytes) == IF mode = "sse" THEN EventsXC(charset, bytes, TRUE) ELSE RecordsC(charset, bytes)
+Expected(mode, bytes) == ExpectedC("utf8", mode, bytes)
 
 \* the final block is not closed by a blank line (so the last event exists only through the final flush)
 LastUnterminated(mode, bytes) ==
